@@ -230,6 +230,18 @@ Theorem weighted_cauchy_schwarz : forall n (w a b : list R), allpos w -> length 
 Proof. exact cauchy_schwarz. Qed.
 Print Assumptions weighted_cauchy_schwarz.
 
+(* proximal_convex_conj_l2(space, lam, g) = proximal_convex_conj(proximal_l2(space, lam, g)): the conjugate of
+   lam*||. - g||_w is the indicator of the lam-ball of the space norm plus <., g>_w, and the factory is sound for it *)
+Theorem norm_conjugate_pair_lam_g : forall lam n (g w : list R), 0 < lam -> allpos w -> length w = n -> length g = n ->
+  is_conj n w (F_l2 lam g w) (fun y => if Rleb (wnormsq w y) (lam * lam) then Some (wdot w y g) else None).
+Proof. exact l2_conj_pair. Qed.
+Print Assumptions norm_conjugate_pair_lam_g.
+Theorem factory_convex_conj_l2 : forall lam n (g w : list R), 0 < lam -> allpos w -> length w = n -> length g = n ->
+  sound n w (fun y => if Rleb (wnormsq w y) (lam * lam) then Some (wdot w y g) else None)
+        (prox_convex_conj (fun s x => needs_scalar s (fun sg => Ok (prox_l2 w lam (Some g) sg x)))).
+Proof. exact ccl2_factory_sound. Qed.
+Print Assumptions factory_convex_conj_l2.
+
 (* proximal_l2(space, lam, g): block soft threshold in the norm of the weighted space *)
 Theorem factory_l2 : forall lam n (g w : list R) (s : R) (x : list R), 0 < lam -> 0 < s ->
   length g = n -> length w = n -> length x = n -> allpos w ->
